@@ -7,7 +7,7 @@ use serde_json::{json, Value};
 pub const DEF: PropDef = PropDef {
     id: "C15",
     level: "exploration",
-    rule: "58 base programs with up to 3 name placeholders in every name position (targets, operands, subscripts, listen, build/knock, rock/roll, mutation operand / destination, parameters, function and call names, poetic assignment, pronoun referents, erroring uses, 's / 're contractions, a name shared by a function and a parameter or variable); for each: all 6^k fillings from three name kinds x two alphabets (simple zed / élan, common the zed / my élan, proper Zed Yod / Élan Über Zed; distinct words per placeholder so that distinct spellings denote distinct variables); for every filling every single mention re-cased in each admissible way (proper names keep their capitals), all mentions re-cased at once, (thorough) all pairs of re-cased mentions, and all keywords upper-cased / title-cased / aLtErNaTeD / AlTeRnAtEd; plus 19 pairs of confusable names (same letters with other word breaks, with / without article, other article, with / without accent, swapped words) in 6 shapes, both orders; oracle (metamorphic, no reference interpreter): stdout and outcome class equal those of the all-simple-lowercase filling; non-trivial = every case (two executions compared); distinct = distinct program text",
+    rule: "58 base programs with up to 3 name placeholders in every name position (targets, operands, subscripts, listen, build/knock, rock/roll, mutation operand / destination, parameters, function and call names, poetic assignment, pronoun referents, erroring uses, 's / 're contractions, a name shared by a function and a parameter or variable); for each: all 6^k fillings from three name kinds x two alphabets (simple zed / élan, common the zed / my élan, proper Zed Yod / Élan Über Zed; distinct words per placeholder so that distinct spellings denote distinct variables); for every filling every single mention re-cased in each admissible way (proper names keep their capitals), all mentions re-cased at once, (thorough) all pairs of re-cased mentions, and all keywords upper-cased / title-cased / aLtErNaTeD / AlTeRnAtEd; plus 23 pairs of confusable names (names spelling float words such as nan / inf / infinity, same letters with other word breaks, with / without article, other article, with / without accent, swapped words) in 6 shapes, both orders; oracle (metamorphic, no reference interpreter): stdout and outcome class equal those of the all-simple-lowercase filling; non-trivial = every case (two executions compared); distinct = distinct program text",
     assumptions: &["error messages quote names as spelled and are therefore compared by class (ok / runtime error / parse error) only"],
     build,
     exhaustive: true,
@@ -81,6 +81,11 @@ pub const BASES: &[&str] = &[
 
 /// pairs of names that a lossy key (dropped word breaks, dropped article, folded accents) would merge
 pub const CONFUSABLE: &[(&str, &str)] = &[
+    // names that spell something another token kind also spells (float words)
+    ("nan", "inf"),
+    ("NaN", "Infinity"),
+    ("Nan Goldin", "Infinity War"),
+    ("the nan", "my infinity"),
     ("Sun Dance", "Sund Ance"),
     ("Zed Yod", "Zed Yod Qux"),
     ("Ab Cd", "Ab Cd Ef Gh"),
